@@ -8,7 +8,9 @@ from .. import syscorr, sysinterp
 PROP = "C07"
 LEAN_TARGETS = ["Eliot.Properties.C07"]
 AUDIT = "Eliot/Audit/C07.lean"
-SKELETON_TARGETS = {"Sys.C07.skeleton_E5": "Eliot.Properties.C07Skel"}
+SKELETON_TARGETS = {"Sys.C07.skeleton_E5": "Eliot.Properties.C07Skel",
+                    "Eliot.ShapesSkel.extractor_lookup_shape (E16: get_fields_for_exception - guard, MRO walk, a failing extractor is logged under the guard and yields {})":
+                    ("Eliot.Properties.ShapesSkel", "Eliot/Audit/ShapesSkel.lean", ["Eliot.ShapesSkel.extractor_lookup_shape", "Eliot.ShapesSkel.register_shape"])}
 THEOREMS = ["Sys.C07.execS_outcome", "Sys.C07.execB_outcome", "Sys.C07.app_outcome_unchanged",
             "Sys.C07.outcome_env_independent", "Sys.C07.exc_identity"]
 RULE = ("(a) programs of the core language with failure masks over every serializer / extractor / destination call and exceptions "
